@@ -107,7 +107,9 @@ def construct(d, rng, depth, ctx):
         # a control word as the last token of a macro argument: the blank
         # behind the closing brace separates the words (TeX skips blanks
         # behind the control word only)
-        d.add(rng.choice(['\\um{', '\\umm{', '\\textbf{', '\\umo{']))
+        d.add(rng.choice(['\\um{', '\\umm{', '\\textbf{', '\\umo{']
+                         + (['\\foreignlanguage{ngerman}{', '\\foreignlanguage{english}{',
+                             '\\foreignlanguage{german}{'] if 'lang' in ctx else [])))
         d.word(rng)
         d.add(' ' + rng.choice(['\\LaTeX', '\\TeX', '\\dots']) + '}')
         d.add(rng.choice([' ', '\n', '  ']))
@@ -115,7 +117,9 @@ def construct(d, rng, depth, ctx):
     elif k == 'phrase':
         # a phrase that a replacement list of the option matrix rewrites
         # (longer and shorter replacement)
-        d.add(rng.choice(['so dass', 'zum Beispiel', 'so  dass']))
+        d.add(rng.choice(['so dass', 'zum Beispiel', 'so  dass', 'so dass', 'so\n \ndass',
+                          'zum\n\t\nBeispiel', 'so \n  \n dass', 'so\ndass', 'so\n\ndass']
+                         if 'nopar' not in ctx else ['so dass', 'zum Beispiel', 'so  dass']))
         d.add(' ')
         d.word(rng)
     elif k == 'ctlglue':
@@ -196,7 +200,14 @@ def construct(d, rng, depth, ctx):
         if rng.random() < 0.3:
             d.add(rng.choice(['  ', '\n ', ' \t', '   ']))
         sentence(d, rng, depth - 1, ctx)
-        d.add('}')
+        if rng.random() < 0.3:
+            # white space at the end of the insertion, more text behind it
+            d.add(rng.choice([' ', '  ', '\n', ' \n']))
+            d.add('}')
+            d.add(rng.choice([' ', '  ', '']))
+            d.word(rng)
+        else:
+            d.add('}')
     elif k == 'LTadd':
         d.add('\\LTadd{')
         d.word(rng)
